@@ -149,9 +149,13 @@ func checkEncode(c *vm.Ctx, g *gotypes.Gen) {
 	r := g.R
 	g.Features = map[string]bool{}
 	var t reflect.Type
-	if r.Intn(3) == 0 {
+	switch k := r.Intn(40); {
+	case k < 7:
+		t = gotypes.DeepEmbedded(k+1, false) // embedding chains of 1..7 levels
+		g.Features["embedded.depth>=3"] = k+1 >= 3
+	case k < 18:
 		t = g.GenType(0)
-	} else {
+	default:
 		t = g.GenStruct(0)
 	}
 	v := g.GenValue(t)
